@@ -381,6 +381,7 @@ class Report(object):
         for d in self.drift[:10]:
             print('MODEL-DRIFT %s' % d)
         coverage = dict(coverage)
+        coverage['violation_signatures'] = [json.loads(k) for k in sorted(seen)][:3000]
         coverage['known_findings_observed'] = {k: v[1] for k, v in self.known.items()}
         coverage['model_drift'] = self.drift[:20]
         if self.notes:
